@@ -297,7 +297,10 @@ def real_cell(cell):
             s.write_conf()
         if scenario == "bind-respelled":
             # the same address written differently (tcp:// prefix): nothing about the listener changes
-            s.conf_lines.append("bind = 'tcp://127.0.0.1:%d'" % s.port)
+            if bind == "unix":
+                s.conf_lines.append("bind = 'unix://%s'" % s.sockpath)
+            else:
+                s.conf_lines.append("bind = 'tcp://127.0.0.1:%d'" % s.port)
             s.write_conf()
         if scenario == "workers-removed":
             # the setting disappears from the configuration file: the built-in default (1) applies again
